@@ -26,7 +26,7 @@ CHECKS = {
 
 KNOTE = "trusted: go/ssa, the interpreter fork, the filesystem stubs of DESIGN §4 (each os call fails without effect or has its POSIX effect; Rename atomic; crash = nothing further applied), embed.FS read from the working tree; C15 counterexamples are replayed natively (install.go compiled with its os calls routed through a fault-injection shim; the installer process is killed at the crash step / the step fails) and the stubs are validated against the real OS on a sample of model paths; C16 counterexamples carry the operation trace of the model"
 CHECKS["C15"] = ("other", "symbolic execution of the real Install/InstallFile (go/ssa incl. deferred cleanup) with crash position and failing step as symbolic integers decided by z3: every crash point between/inside the filesystem steps and every single injected fault over the whole embedded tree is covered path-completely; per path the model filesystem must show every destination untouched or complete with mode 0644, failures reported, no temp file left, fault-free run complete; base states: destination absent, directory present, previous installation present (older content): on an error return a previously installed file must still be there (previous or new content), evaluated on the effective filesystem (written, removed, prior); every state a crashed or failed run leaves behind is followed by a fault-free run in the model, which must complete the installation (the native replay performs the second run as well)", KNOTE, "symbolic execution of go/ssa with a nondeterministic filesystem stub; crash/fault positions are solver-decided symbolic integers", "§5 C15")
-CHECKS["C16"] = ("other", "symbolic execution of the real Install/ResolvePath/ValidatePath and agent methods for all 9 agents with --path, $HOME and cwd as symbolic strings: every mutating filesystem event is proved (unsat str.prefixof query) to lie under <base>/<skill name> with base taken from the README table parsed at check time; installed tree = on-disk skill tree; registry = kong sub-commands = README list; the process umask is an environment parameter of the filesystem model ({022,027,077} wherever a file is created with an explicit permission); every (agent, --user, --path kind, base state) case is also pushed through the CLI built from the working tree on concrete HOME/cwd/--path (and under umask 077) and judged by the same README-derived expectation; environment variables other than HOME are arbitrary symbolic strings (native: XDG_*_HOME set elsewhere)", KNOTE, "symbolic execution of go/ssa with symbolic path strings; SMT string prefix/equality queries (portfolio)", "§5 C16")
+CHECKS["C16"] = ("other", "symbolic execution of the real Install/ResolvePath/ValidatePath and agent methods for all 9 agents with --path, $HOME and cwd as symbolic strings: every mutating filesystem event is proved (unsat str.prefixof query) to lie under <base>/<skill name> with base taken from the README table parsed at check time; installed tree = on-disk skill tree; registry = kong sub-commands = README list; the process umask is an environment parameter of the filesystem model ({022,027,077} wherever a file is created with an explicit permission); every (agent, --user, --path kind, base state) case is also pushed through the CLI built from the working tree on concrete HOME/cwd/--path (absolute, relative, and one starting with a literal ~/ that kong must hand on untouched; also under umask 077) and judged by the same README-derived expectation; environment variables other than HOME are arbitrary symbolic strings (native: XDG_*_HOME set elsewhere)", KNOTE, "symbolic execution of go/ssa with symbolic path strings; SMT string prefix/equality queries (portfolio)", "§5 C16")
 
 CHECKS["C09"] = ("other", "path-complete bounded execution of the real detectCycles (every edge relation over n nodes, diagnostics must be a closed walk naming its types), the real NewGraph (every small declaration over type tokens against a reference for duplicate / orphan Struct / reachable cycle) and the real Processor.ProcessFiles with ParseFile/CreateInjector/os.Create/Generate failing at every position (refusal => no output created, non-nil error; main => exit 1); plus CLI gates: planted-invalid declarations refused with the stale output file untouched, valid corpus declarations accepted with one function each; type tokens are real go/types types, two of them with equal type and package names but different import paths",
   "trusted: go/ssa, the interpreter fork, stubs for the parser/generator/os.Create under processFile; refusals arising inside the parser (Bind, field extraction, Set flattening) are reached only by the CLI gates (go/types and packages.Load are not executable in the interpreter); bounds: graphs <= 4 nodes, <= 3 providers over <= 3 type tokens, 2 files",
